@@ -296,7 +296,12 @@ func extractTags(tag string) (*structtag.Tags, error) {
 		return nil, fmt.Errorf("could not unquote tags. %w", err)
 	}
 
-	return structtag.Parse(tag)
+	tags, err := structtag.Parse(tag)
+	if tags == nil && err == nil {
+		// A tag that holds nothing but spaces
+		tags = &structtag.Tags{}
+	}
+	return tags, err
 }
 
 func plencValue(tag string) (int, error) {
